@@ -1228,6 +1228,22 @@ func c01Collapse(c *kit.Ctx, m *storeModel, r5 *kit.Rule) {
 		}
 		return e
 	}
+	// a map of indices into a result list built next to it (`kept[id] = len(out); out =
+	// append(out, p)` / `out[i] = p`): the list the current element is appended to
+	var resultList types.Object
+	ast.Inspect(loop.Body, func(n ast.Node) bool {
+		if as, ok := n.(*ast.AssignStmt); ok && len(as.Lhs) == 1 && len(as.Rhs) == 1 {
+			if call, ok := ast.Unparen(as.Rhs[0]).(*ast.CallExpr); ok && len(call.Args) == 2 {
+				if b, ok := kit.Callee(info, call).(*types.Builtin); ok && b.Name() == "append" {
+					lo := kit.ObjOf(info, as.Lhs[0])
+					if lo != nil && lo == kit.ObjOf(info, call.Args[0]) && lo != mapVar && (kit.ObjOf(info, call.Args[1]) == elem || kit.LoopElem(info, loop, call.Args[1])) {
+						resultList = lo
+					}
+				}
+			}
+		}
+		return true
+	})
 	// isWho: e denotes the held entry (the comma-ok value, or the batch element at the held index) / the current element
 	isWho := func(e ast.Expr, who types.Object) bool {
 		e = ast.Unparen(e)
@@ -1237,7 +1253,7 @@ func c01Collapse(c *kit.Ctx, m *storeModel, r5 *kit.Rule) {
 		if who == elem && kit.LoopElem(info, loop, e) {
 			return true
 		}
-		if ix, ok := e.(*ast.IndexExpr); ok && who == existing && kit.ObjOf(info, ix.Index) == existing && kit.SameExpr(info, ix.X, loop.X) {
+		if ix, ok := e.(*ast.IndexExpr); ok && who == existing && kit.ObjOf(info, ix.Index) == existing && (kit.SameExpr(info, ix.X, loop.X) || (resultList != nil && kit.ObjOf(info, ix.X) == resultList)) {
 			return true
 		}
 		return false
@@ -1290,7 +1306,23 @@ func c01Collapse(c *kit.Ctx, m *storeModel, r5 *kit.Rule) {
 					if kit.ObjOf(info, as.Rhs[0]) == elem || (loop.Key != nil && kit.ObjOf(info, as.Rhs[0]) != nil && kit.ObjOf(info, as.Rhs[0]) == kit.ObjOf(info, loop.Key)) {
 						return []kit.S{s.Set("store", "1")}
 					}
+					// the position the element is about to take in the result list
+					if call, ok := ast.Unparen(as.Rhs[0]).(*ast.CallExpr); ok && len(call.Args) == 1 && resultList != nil {
+						if b, ok := kit.Callee(info, call).(*types.Builtin); ok && b.Name() == "len" && kit.ObjOf(info, call.Args[0]) == resultList {
+							return []kit.S{s.Set("store", "idx")}
+						}
+					}
 					return []kit.S{s.Set("store", "other")}
+				}
+				if resultList != nil {
+					// out = append(out, p) completes the index store; out[i] = p replaces the held entry
+					if kit.ObjOf(info, as.Lhs[0]) == resultList && s.Get("store") == "idx" {
+						return []kit.S{s.Set("store", "1")}
+					}
+					if ix, ok := ast.Unparen(as.Lhs[0]).(*ast.IndexExpr); ok && kit.ObjOf(info, ix.X) == resultList && kit.ObjOf(info, ix.Index) == existing &&
+						(kit.ObjOf(info, as.Rhs[0]) == elem || kit.LoopElem(info, loop, as.Rhs[0])) {
+						return []kit.S{s.Set("store", "1")}
+					}
 				}
 			}
 			return []kit.S{s}
@@ -1314,7 +1346,11 @@ func c01Collapse(c *kit.Ctx, m *storeModel, r5 *kit.Rule) {
 		outs := map[string]bool{}
 		for _, e := range res.Exits {
 			if e.State.Get("it") == "done" {
-				outs[e.State.Get("store")] = true
+				k := e.State.Get("store")
+				if k == "idx" {
+					k = "other"
+				}
+				outs[k] = true
 			}
 		}
 		name := "first of its identity"
